@@ -22,7 +22,7 @@ Variable keep : N -> N -> Z -> bool.
 Variable remap : N -> N -> Z -> option Z.
 
 (* a retain that panics at call i, resumed on the remaining entries, is the complete retain *)
-Lemma retain_until_all s p : retain_until khash keep s p (length (nodes s)) = retain khash keep s p.
+Lemma retain_until_all s p : retain_until khash keep s p (List.length (nodes s)) = retain khash keep s p.
 Proof. unfold retain_until, retain. rewrite firstn_all. reflexivity. Qed.
 
 Lemma retain_until_zero s p : retain_until khash keep s p 0 = s.
